@@ -6,7 +6,9 @@ import (
 	"context"
 	"fmt"
 	"io"
+	"regexp"
 	"sort"
+	"strconv"
 	"strings"
 	"sync"
 	"testing"
@@ -19,6 +21,7 @@ import (
 	"pgregory.net/rapid"
 
 	"verifharness/internal/evid"
+	"verifharness/internal/vcompose"
 	"verifharness/internal/vgen"
 	"verifharness/internal/vmodel"
 	"verifharness/internal/vstore"
@@ -67,9 +70,28 @@ type writeCase struct {
 	Order []int `json:"release_order"`
 	// configuration shape (TestQuorumConfigShapes): minWritesForSuccess left out (documented default: all
 	// write replicas; Min is then N), a separate readBackends list of NRead stores, shape of the replicas' errors
-	MinUnset bool `json:"minWritesForSuccess_unset,omitempty"`
-	NRead    int  `json:"readBackends,omitempty"`
-	ErrKind  int  `json:"error_kind,omitempty"`
+	// Remote[i]: 0 = replica i is the harness store itself; 1 = it is reached over HTTP (perkeep's handlers
+	// over the harness store, a pkg/client in front, as the "remote" storage type does); 2 = over HTTP, and
+	// the peer reports one byte more than it stored in its upload response (a misreporting replica)
+	Remote   []int `json:"remote,omitempty"`
+	MinUnset bool  `json:"minWritesForSuccess_unset,omitempty"`
+	NRead    int   `json:"readBackends,omitempty"`
+	ErrKind  int   `json:"error_kind,omitempty"`
+}
+
+// good: replica i stores the blob and says so correctly.
+func (c writeCase) good(i int) bool {
+	return c.Beh[i] == 0 && (i >= len(c.Remote) || c.Remote[i] != 2)
+}
+
+var sizeRx = regexp.MustCompile(`"size":\s*(\d+)`)
+
+// misreportSizes adds one to every size of an upload response.
+func misreportSizes(body []byte) []byte {
+	return sizeRx.ReplaceAllFunc(body, func(m []byte) []byte {
+		n, _ := strconv.Atoi(string(sizeRx.FindSubmatch(m)[1]))
+		return []byte(fmt.Sprintf(`"size": %d`, n+1))
+	})
 }
 
 func (c writeCase) String() string {
@@ -86,6 +108,9 @@ func (c writeCase) String() string {
 	}
 	if c.ErrKind != 0 {
 		cfg += fmt.Sprintf(" errorKind=%d", c.ErrKind)
+	}
+	if len(c.Remote) > 0 {
+		cfg += fmt.Sprintf(" remote(1=http,2=http-misreporting)=%v", c.Remote)
 	}
 	return fmt.Sprintf("n=%d min=%d%s behaviours=[%s] releaseOrder=%v", c.N, c.Min, cfg, strings.Join(b, ","), c.Order)
 }
@@ -105,6 +130,18 @@ func runWriteCase(c writeCase) error {
 		stores[i] = env.NewStore(name)
 		p := "/" + name + "/"
 		ld.m[p] = stores[i]
+		if i < len(c.Remote) && c.Remote[i] != 0 {
+			var tamper func([]byte) []byte
+			if c.Remote[i] == 2 {
+				tamper = misreportSizes
+			}
+			hs, err := vcompose.NewHTTPStore(stores[i], false, tamper)
+			if err != nil {
+				return fmt.Errorf("harness: http replica: %v", err)
+			}
+			defer hs.(io.Closer).Close()
+			ld.m[p] = hs
+		}
 		backends = append(backends, p)
 		gates["store:"+name] = make(chan struct{})
 	}
@@ -176,8 +213,8 @@ func runWriteCase(c writeCase) error {
 		}
 	}
 	okTotal := 0
-	for _, b := range c.Beh {
-		if b == 0 {
+	for i := range c.Beh {
+		if c.good(i) {
 			okTotal++
 		}
 	}
@@ -200,14 +237,14 @@ func runWriteCase(c writeCase) error {
 		if err := waitDone(layer); err != nil {
 			return err
 		}
-		if c.Beh[i] == 0 {
+		if c.good(i) {
 			successes++
 		}
 		if successes < c.Min {
 			// must not have acknowledged yet; and must not have given up while quorum is still reachable
 			remainingOK := 0
 			for _, j := range c.Order[step+1:] {
-				if c.Beh[j] == 0 {
+				if c.good(j) {
 					remainingOK++
 				}
 			}
@@ -263,7 +300,7 @@ func runWriteCase(c writeCase) error {
 		// at acknowledgement at least Min healthy replicas hold the blob (they were released before)
 		holders := 0
 		for i := 0; i < c.N; i++ {
-			if c.Beh[i] == 0 && released[i] {
+			if c.good(i) && released[i] {
 				if d, ok := stores[i].RawGet(ref); ok && bytes.Equal(d, data) {
 					holders++
 				}
@@ -273,10 +310,54 @@ func runWriteCase(c writeCase) error {
 			return fmt.Errorf("acknowledged but only %d healthy replicas hold the blob (quorum %d)", holders, c.Min)
 		}
 	}
+	// a second blob arrives while the slow replicas have not even started on the first one: whatever the
+	// replicated store keeps of an acknowledged receive must not be disturbed by the next receive
+	second := make(chan struct{})
+	var data2 []byte
+	if got.err == nil && len(released) < c.N {
+		data2 = []byte(fmt.Sprintf("PAYLOAD-%v", c)) // same length as data, other bytes
+		go func() {
+			defer close(second)
+			sto.ReceiveBlob(ctx, blob.RefFromBytes(data2), bytes.NewReader(data2))
+		}()
+		select {
+		case <-second:
+		case <-time.After(20 * time.Millisecond):
+		}
+	} else {
+		close(second)
+	}
 	releaseRest()
 	for i := 0; i < c.N; i++ {
 		if err := waitDone(fmt.Sprintf("store:w%d", i)); err != nil {
 			return err
+		}
+	}
+	select {
+	case <-second:
+	case <-time.After(30 * time.Second):
+		return fmt.Errorf("VERIF-INCONCLUSIVE: the second receive did not return within 30s after all replicas were released")
+	}
+	if got.err == nil {
+		// every replica that stored the acknowledged blob, early or late, holds exactly its bytes
+		dl := time.Now().Add(5 * time.Second)
+		for i := 0; i < c.N; i++ {
+			if c.Beh[i] != 0 && c.Beh[i] != 2 {
+				continue
+			}
+			for {
+				d, ok := stores[i].RawGet(ref)
+				if ok && bytes.Equal(d, data) {
+					break
+				}
+				if ok {
+					return fmt.Errorf("acknowledged blob %s (%q): replica #%d, which was slow and stored it after the acknowledgement (a second blob %q had been received meanwhile), holds %q under that ref", ref, data, i, data2, d)
+				}
+				if time.Now().After(dl) {
+					break // a replica may legitimately never get the blob (its write failed)
+				}
+				time.Sleep(100 * time.Microsecond)
+			}
 		}
 	}
 	return nil
@@ -381,6 +462,18 @@ func TestQuorumConfigShapes(t *testing.T) {
 				ok++
 			}
 		}
+		if rapid.Bool().Draw(t, "someRemote") {
+			for i := 0; i < n; i++ {
+				c.Remote = append(c.Remote, rapid.SampledFrom([]int{0, 1, 1, 2}).Draw(t, "remote"))
+			}
+			ok = 0
+			for i := range c.Beh {
+				if c.good(i) {
+					ok++
+				}
+			}
+			evid.R.Label("write-config/with-replicas-over-http")
+		}
 		idx := make([]int, n)
 		for i := range idx {
 			idx[i] = i
@@ -422,6 +515,15 @@ func TestReadsSurviveReplicaLoss(t *testing.T) {
 		for i := 0; i < nw; i++ {
 			s := env.NewStore(fmt.Sprintf("w%d", i))
 			ld.m["/"+s.Name+"/"] = s
+			if rapid.IntRange(0, 3).Draw(t, "replicaOverHTTP") == 0 {
+				hs, err := vcompose.NewHTTPStore(s, false, nil)
+				if err != nil {
+					t.Fatalf("harness: %v", err)
+				}
+				defer hs.(io.Closer).Close()
+				ld.m["/"+s.Name+"/"] = hs
+				evid.R.Label("read/replica-over-http")
+			}
 			wb = append(wb, "/"+s.Name+"/")
 			if !distinct {
 				readStores = append(readStores, s)
@@ -433,6 +535,15 @@ func TestReadsSurviveReplicaLoss(t *testing.T) {
 			for i := 0; i < nr; i++ {
 				s := env.NewStore(fmt.Sprintf("r%d", i))
 				ld.m["/"+s.Name+"/"] = s
+				if rapid.IntRange(0, 3).Draw(t, "replicaOverHTTP") == 0 {
+					hs, err := vcompose.NewHTTPStore(s, false, nil)
+					if err != nil {
+						t.Fatalf("harness: %v", err)
+					}
+					defer hs.(io.Closer).Close()
+					ld.m["/"+s.Name+"/"] = hs
+					evid.R.Label("read/replica-over-http")
+				}
 				rb = append(rb, "/"+s.Name+"/")
 				readStores = append(readStores, s)
 			}
@@ -589,4 +700,88 @@ func TestReadsSurviveReplicaLoss(t *testing.T) {
 			evid.R.Sample(nt, map[string]any{"kind": "read-side", "readReplicas": nr, "distinctReadSet": distinct, "layout(ref@holdersMask)": layout, "fetchFailingReplicasMask": failMask, "cursor": cursor, "limit": limit})
 		}
 	})
+}
+
+// TestRetryOverHTTPStillNeedsQuorum: the replicated store behind the blob protocol handlers, driven by a
+// pkg/client. A write that fails for lack of quorum may leave the blob on some replicas; a client's retry
+// while the others are still down must fail again (one replica holding the blob is not a quorum), and
+// succeed once enough replicas are back.
+func TestRetryOverHTTPStillNeedsQuorum(t *testing.T) {
+	evid.Check(t, 150, 1500, func(t *rapid.T) {
+		n := rapid.IntRange(2, 4).Draw(t, "replicas")
+		min := rapid.IntRange(2, n).Draw(t, "min")
+		down := rapid.IntRange(n-min+1, n-1).Draw(t, "down") // so many fail that the quorum is out of reach
+		env := vstore.NewEnv()
+		defer env.ReleaseAll()
+		ld := &loader{m: map[string]blobserver.Storage{}}
+		var backends []any
+		stores := make([]*vstore.Store, n)
+		for i := range stores {
+			stores[i] = env.NewStore(fmt.Sprintf("w%d", i))
+			ld.m["/"+stores[i].Name+"/"] = stores[i]
+			backends = append(backends, "/"+stores[i].Name+"/")
+		}
+		failing := map[string]bool{}
+		for _, i := range rapid.Permutation(seqInts(n)).Draw(t, "downReplicas")[:down] {
+			failing[fmt.Sprintf("store:w%d", i)] = true
+		}
+		env.Match = func(e *vstore.Event) vstore.Behaviour {
+			if e.Op == "receive" && failing[e.Layer] {
+				return vstore.Fail
+			}
+			return vstore.OK
+		}
+		rep, err := blobserver.CreateStorage("replica", ld, jsonconfig.Obj{"backends": backends, "minWritesForSuccess": float64(min)})
+		if err != nil {
+			t.Fatalf("harness: %v", err)
+		}
+		front, err := vcompose.NewHTTPStore(rep, rapid.Bool().Draw(t, "clientHaveCache"), nil)
+		if err != nil {
+			t.Fatalf("harness: %v", err)
+		}
+		defer front.(io.Closer).Close()
+		data := []byte(fmt.Sprintf("retry payload n=%d min=%d down=%d %d", n, min, down, rapid.IntRange(0, 1<<20).Draw(t, "salt")))
+		ref := blob.RefFromBytes(data)
+		desc := fmt.Sprintf("replica of %d (minWritesForSuccess %d) behind the HTTP handlers, %d replicas down", n, min, down)
+		evid.R.Eval()
+		evid.R.Label("retry-over-http/case")
+		evid.R.NonTrivial(evid.Hash("retry", n, min, down, string(data)))
+		for attempt := 1; attempt <= 3; attempt++ {
+			if _, err := blobserver.Receive(ctx, front, ref, bytes.NewReader(data)); err == nil {
+				holders := 0
+				for _, s := range stores {
+					if d, ok := s.RawGet(ref); ok && bytes.Equal(d, data) {
+						holders++
+					}
+				}
+				t.Fatalf("C12 violated: %s: upload attempt %d was acknowledged; %d replicas hold the blob, the quorum is %d", desc, attempt, holders, min)
+			}
+		}
+		for k := range failing {
+			delete(failing, k)
+		}
+		if _, err := blobserver.Receive(ctx, front, ref, bytes.NewReader(data)); err != nil {
+			t.Fatalf("C12 violated: %s, then all replicas healthy again: the retried upload failed: %v", desc, err)
+		}
+		holders := 0
+		for _, s := range stores {
+			if d, ok := s.RawGet(ref); ok && bytes.Equal(d, data) {
+				holders++
+			}
+		}
+		if holders < min {
+			t.Fatalf("C12 violated: %s, then healthy: the retry was acknowledged but only %d replicas hold the blob (quorum %d)", desc, holders, min)
+		}
+		if evid.R.WantSample(true) {
+			evid.R.Sample(true, map[string]any{"kind": "retry-over-http", "replicas": n, "minWritesForSuccess": min, "replicas_down_for_three_attempts": down})
+		}
+	})
+}
+
+func seqInts(n int) []int {
+	out := make([]int, n)
+	for i := range out {
+		out[i] = i
+	}
+	return out
 }
